@@ -158,6 +158,8 @@ def vacuity_probe(r, tops_only, scratch, tops):
         j = json.loads(p.stdout)
     except Exception:
         return len(targets), ['<no verus result>']
+    if not j.get('times-ms', {}).get('smt', {}).get('smt-run-module-times'):
+        return len(targets), ['<no verus result>']
     crate = os.path.basename(path)[:-3]
     ok = {}
     for m in j.get('times-ms', {}).get('smt', {}).get('smt-run-module-times', []):
@@ -256,6 +258,29 @@ def check_property(pid, tier, repo, scratch, seed):
             inconclusive += res.get('inconclusive', [])
             checker_cmds += res.get('cmds', [])
     # ---- classification
+    # which failed obligations speak about THIS property (the others leave it undecided, not violated)
+    relv = pm.get('relevance') or {}
+
+    def relevant(f):
+        if f.get('concrete_input'):
+            return True
+        if f.get('function', '').startswith('kani::') or f.get('function', '').startswith('regression'):
+            return True
+        if relv.get('site_tag'):
+            return relv['site_tag'] in (f.get('site_text') or '')
+        if relv.get('safety'):
+            k = f.get('kind', '')
+            from_repo = bool(f.get('site_origin')) and f['site_origin'][0] == 'C'
+            if any(x in k for x in ('underflow/overflow', 'division by zero', 'decreases not satisfied', 'termination', 'bit shift')):
+                return True
+            if ('assertion failed' in k or 'precondition not satisfied' in k) and from_repo:
+                return True
+            return False
+        return True
+    undecided = [f for f in failures if not relevant(f)]
+    failures = [f for f in failures if relevant(f)]
+    for f in undecided:
+        inconclusive.append(dict(f, why='a different obligation of a function in the cone failed: this property is undecided'))
     new_fail, known_hits = [], []
     for f in failures:
         k = match_known(pid, f, known)
@@ -263,6 +288,18 @@ def check_property(pid, tier, repo, scratch, seed):
             known_hits.append((k, f))
         else:
             new_fail.append(f)
+    concrete = None
+    if new_fail or inconclusive:
+        try:
+            import replay_engine
+            concrete = replay_engine.search(pid, new_fail + inconclusive, repo, scratch)
+        except Exception as ex:  # the search is best effort
+            concrete = {'found': False, 'error': repr(ex)}
+        if concrete.get('found') and not new_fail:
+            # an undecided obligation plus a concrete failing input for this property on the real code: a violation
+            new_fail = [dict(x) for x in inconclusive if x.get('function')][:3] or [{'function': None, 'kind': 'undecided obligation', 'site_text': ''}]
+            for x in new_fail:
+                x['note'] = 'the obligation is undecided by the verifier (%s); the violation is established by the concrete failing input' % x.get('why')
     obligations = [o for u in units for o in u['obligations']] + [o for e in extra for o in e.get('obligations', [])]
     discharged = sum(1 for o in obligations if o['ok'])
     wall = time.time() - t0
@@ -295,11 +332,6 @@ def check_property(pid, tier, repo, scratch, seed):
     if new_fail:
         os.makedirs(os.path.join(VERIF, 'replays'), exist_ok=True)
         rp = os.path.join(VERIF, 'replays', '%s.%d.json' % (pid, int(time.time())))
-        concrete = None
-        try:
-            concrete = find_failing_input(pid, new_fail, repo, scratch)
-        except Exception as ex:  # the search is best effort
-            concrete = {'found': False, 'error': repr(ex)}
         with open(rp, 'w') as fh:
             json.dump({'property': pid, 'failed_obligations': new_fail, 'failing_input': concrete,
                        'note': 'obligation(s) generated from the current /repo source that Verus / Kani could not discharge'}, fh, indent=1)
@@ -308,6 +340,8 @@ def check_property(pid, tier, repo, scratch, seed):
             so = f.get('site_origin') or []
             loc = '%s:%s' % (so[1], so[2]) if len(so) == 3 and so[0] == 'C' else ''
             print('  failed obligation: %s in %s [%s] %s' % (f.get('kind'), f.get('function'), loc, (f.get('site_text') or '')[:100]))
+        if concrete and concrete.get('found'):
+            print('  failing input (real code): %s' % str(concrete.get('input'))[:600])
         print('VIOLATION property=%s replay=%s%s' % (pid, rp, tail))
         rc = 1
     elif inconclusive:
